@@ -17,6 +17,7 @@ import (
 	"net"
 	"net/http"
 	"path/filepath"
+	"sort"
 	"strconv"
 	"strings"
 	"sync"
@@ -1130,7 +1131,18 @@ func (c *DefaultCtx) Path(override ...string) string {
 		// Set new path to request context
 		c.fasthttp.Request.URI().SetPath(c.pathOriginal)
 		// Prettify path
+		oldTreePathHash := c.treePathHash
 		c.configDependentPaths()
+		if c.route != nil && c.treePathHash != oldTreePathHash {
+			// indexRoute points into the route list of the old path, continue
+			// behind the current route in the route list of the new path
+			tree, ok := c.app.treeStack[c.methodInt][c.treePathHash]
+			if !ok {
+				tree = c.app.treeStack[c.methodInt][0]
+			}
+			pos := c.route.pos
+			c.indexRoute = sort.Search(len(tree), func(i int) bool { return tree[i].pos > pos }) - 1
+		}
 	}
 	return c.app.getString(c.path)
 }
